@@ -141,6 +141,20 @@ class Stream:
         completed).
         """
 
+        # Tor already told us it's gone; nothing to do
+        if self.state in ('CLOSED', 'FAILED'):
+            return defer.succeed(self)
+
+        # a close is already under way; share its outcome
+        if self._closing_deferred:
+            d = defer.Deferred()
+
+            def closed(arg):
+                d.callback(arg)
+                return arg
+            self._closing_deferred.addBoth(closed)
+            return d
+
         self._closing_deferred = defer.Deferred()
 
         def close_command_is_queued(*args):
